@@ -294,6 +294,11 @@ func (s *SourceSpec) Hash(add func(...interface{})) {
 // error for codes.OK.
 func MkErr(code codes.Code, msg string) error {
 	if code == codes.OK {
+		if msg == io.ErrUnexpectedEOF.Error() {
+			// The sentinel itself: what e.g. a decompressor returns for
+			// a truncated stream. It is a source I/O error like any other.
+			return io.ErrUnexpectedEOF
+		}
 		return errors.New(msg)
 	}
 	return status.Error(code, msg)
@@ -746,6 +751,9 @@ func GenFailure(t *rapid.T, label string, s *SourceSpec) {
 	}
 	s.FailCode = failCodes[rapid.IntRange(0, len(failCodes)-1).Draw(t, label+"/failcode")]
 	s.FailMsg = fmt.Sprintf("%s-io-error@%d", label, s.FailAt)
+	if rapid.IntRange(0, 5).Draw(t, label+"/failSentinel") == 0 {
+		s.FailCode, s.FailMsg = codes.OK, io.ErrUnexpectedEOF.Error()
+	}
 	if (s.Kind == CASReader || s.Kind == ProtoFromReader) && s.FailAt > 0 {
 		s.FailWithData = rapid.IntRange(0, 3).Draw(t, label+"/failWithData") == 0
 	}
